@@ -491,7 +491,16 @@ def reference(stg, ax, sig, opts, ts_eval=None, cache=None, ax_fn=None):
             y = np.asarray(fn(g.ravel()), dtype=float)
             tp = y.reshape(T, n_t).mean(axis=1)
         else:
+            g = np.asarray(ts, dtype=float)[:, None]
             tp = np.asarray(fn(ts), dtype=float) * np.ones(T)
+        if tk == 'pgauss':
+            # the family sums the pnum pulses nearest to each sample, found by rounding (t + phase)/period - 1/4: a
+            # sample exactly half-way between two pulse centres may go either way with an ulp of the time stamp
+            # (which pulses are summed then differs by one far pulse): such rows are not judged
+            uu = (g + t['phase'] * axf.dt) / (t['period'] * axf.dt) - 0.25
+            t_tie_rows = (np.abs(uu - np.floor(uu) - 0.5) < 1e-9).any(axis=1)
+        else:
+            t_tie_rows = None
 
     # ---- path -----------------------------------------------------------------------
     p = sig['path']
@@ -538,13 +547,15 @@ def reference(stg, ax, sig, opts, ts_eval=None, cache=None, ax_fn=None):
 
     # discontinuities (box edges): exclude pixels within a hair of an edge
     excl = np.zeros((T, N), dtype=bool)
+    if tk not in ('float', 'int', 'array') and t_tie_rows is not None and t_tie_rows.any():
+        excl |= t_tie_rows[:, None]
     if edges:
         d = np.abs(x - c)
         eps = 64 * gen.ulp(ax.fs[-1]) + 1e-9 * ax.df
         near = np.zeros(d.shape, dtype=bool)
         for e in edges:
             near |= np.abs(d - e) < eps
-        excl = near.any(axis=(2, 3))
+        excl = excl | near.any(axis=(2, 3))
     # scale with the magnitude actually reached (time-growing custom profiles at unix-scale times exceed the nominal bound)
     amp = amplitude_bound(ax, sig)
     tol = tolerance(ax, sig, n_smear=n_s if smear else 0) * np.maximum(1.0, np.abs(exp) / amp)
